@@ -1534,6 +1534,7 @@ class TransportLayer(TransportLayerLogic):
             self.rx_relay_queue.put(None)
 
         TransportLayerLogic.__init__(self, rxfn, txfn, address, error_handler, params, post_send_callback)
+        self.user_rxfn = self.rxfn  # Keep the version that accepts a timeout. A legacy rxfn without parameter has been wrapped
 
     def _read_relay_queue(self, timeout: Optional[float]) -> Optional[CanMessage]:
         try:
